@@ -376,6 +376,44 @@ def job_nest(case: Dict[str, Any]) -> Dict[str, Any]:
     return out
 
 
+def job_gspace(p: Dict[str, Any]) -> Dict[str, Any]:
+    """Slice of the optimizer graph space (see C02): after the REAL optimize_graph every annotated value of the
+    optimised graph is observed at run time (the optimizer re-stamps shapes/dtypes when it rewires nodes)."""
+    from checks import c02
+    from mc import gspace as G
+    from mc.explorer import Chooser, explore, ExploreStats
+    fam, rank, N, prefix = p["fam"], p["rank"], p["N"], p["prefix"]
+    holder: Dict[str, Any] = {}
+    out = {"graphs": 0, "changed": 0, "values": 0, "problems": [], "digests": []}
+
+    def body(ch: Chooser):
+        holder["case"] = c02.build_case(ch, fam, rank, N, "quick")
+
+    for ex in explore(body, start_prefix=prefix, stats=ExploreStats()):
+        case = holder["case"]
+        if case is None or case["annot"] not in ("concrete", "sym1"):
+            continue
+        try:
+            model = c02.to_model(case)
+            after = G.optimize(model)
+        except Exception:
+            continue
+        if sorted(G.op_histogram(model).items()) == sorted(G.op_histogram(after).items()):
+            continue  # untouched graphs carry ONNX's own inferred annotations
+        out["changed"] += 1
+        feeds = c02._feeds(case["g"].inputs, 0)
+        st, probs = observe_top(after, feeds)
+        out["graphs"] += 1
+        if st.startswith("ok:"):
+            out["values"] += int(st[3:])
+        if len(out["digests"]) < 400:
+            out["digests"].append(G.model_digest(after)[:12])
+        for pr in probs[:2]:
+            if len(out["problems"]) < 20:
+                out["problems"].append({"graph": case["text"], "vector": ex.vector, "what": pr})
+    return out
+
+
 def main(tier: str) -> int:
     run = Run(PROP, tier)
     from mc import grammars
@@ -431,12 +469,35 @@ def main(tier: str) -> int:
             handle("corpus", p["pid"], p, r)
         for _i, p, r in pool.imap("checks.c08", "job_nest", ncases):
             handle("nest", "/".join(p["word"]) + f"|{p['variant']}|{'sym' if p['symbolic'] else 'concrete'}", p, r)
+        # optimizer graph-space slice: annotations re-stamped by rewrites
+        from checks import c02
+        gjobs = []
+        for fam, rank, N in ((("T", 2, 3), ("R", 2, 3), ("T", 3, 3)) if tier == "quick" else (("T", 2, 3), ("R", 2, 3), ("T", 3, 3), ("T", 4, 3), ("R", 3, 3))):
+            for pref in c02._plan(fam, rank, N, "quick", 2):
+                gjobs.append({"fam": fam, "rank": rank, "N": N, "prefix": pref})
+        gstats = {"gspace_graphs_changed_by_optimizer": 0, "gspace_values_observed": 0}
+        for _i, p, r in pool.imap("checks.c08", "job_gspace", gjobs):
+            if is_worker_failure(r):
+                run.harness_error(f"gspace {p['fam']}{p['rank']} {p['prefix']}: {r.get('_worker')} {r.get('msg', '')[:120]}")
+                continue
+            run.add("evaluations", r["graphs"])
+            run.add("transitions", r["graphs"])
+            run.add("traces_validated_against_impl", r["graphs"])
+            gstats["gspace_graphs_changed_by_optimizer"] += r["changed"]
+            gstats["gspace_values_observed"] += r["values"]
+            for dg in r["digests"]:
+                run.state(dg)
+                run.nontrivial(dg)
+            for pr in r["problems"]:
+                cls = "dtype" if " declared " in pr["what"] and "but is" in pr["what"] else "shape"
+                run.violation(f"gspace|{pr['graph']}|{cls}", pr["what"], {"kind": "gspace", "case": p, "vector": pr["vector"]})
+        stats.update(gstats)
     run.cov.update(stats)
     return run.finish()
 
 
 def replay(rep: Dict[str, Any]) -> Dict[str, Any]:
     with Pool(1, init=("mc.runners", "warm_export")) as pool:
-        fn = "job_corpus" if rep["kind"] == "corpus" else "job_nest"
+        fn = {"corpus": "job_corpus", "gspace": "job_gspace"}.get(rep["kind"], "job_nest")
         r = pool.map("checks.c08", fn, [rep["case"]])[0]
     return {"violation": bool(r.get("problems")), "observed": r}
